@@ -100,9 +100,24 @@ def rand_tracks(rng, skip_checks, allow_huge=True):
             msgs = msgs + [msgs[rng.randrange(len(msgs))] for _ in range(rng.randrange(1, 4))]
             if rng.random() < 0.3:
                 msgs = msgs * 2
+        if rng.random() < 0.15:
+            # text that only exists outside latin1 (a file loaded with another charset, lyrics typed in by the user)
+            msgs.insert(rng.randrange(len(msgs) + 1),
+                        MetaMessage(rng.choice(('lyrics', 'text', 'marker')), skip_checks=True, time=rng.choice((0, 1, 96)),
+                                    text=rng.choice(('Ωmega', '歌', 'Привет', 'ab\u20ac')))
+                        if rng.random() < 0.7 else
+                        MetaMessage('track_name', name=rng.choice(('Ωmega', '歌')), skip_checks=True, time=0))
         if rng.random() < 0.1:
             from mido.frozen import freeze_message
             msgs = [freeze_message(m) if rng.random() < 0.6 else m for m in msgs]
+            if rng.random() < 0.6:
+                # frozen messages are there to be hashed: used as keys / set members before the merge
+                seen = set()
+                for m in msgs:
+                    try:
+                        seen.add(m)
+                    except TypeError:
+                        pass
         tracks.append(MidiTrack(msgs) if rng.random() < 0.8 else list(msgs))
     if tracks and rng.random() < 0.2:
         # a doubled part: the same track object twice, or an equal copy of it
@@ -257,8 +272,13 @@ def nested_merge_case(ctx, seed):
 def merge_case(ctx, seed):
     rng = random.Random(seed)
     skip = rng.random() < 0.5
-    tracks = rand_tracks(rng, skip)
     case = lambda: {'kind': 'merge', 'seed': seed}  # noqa: E731
+    try:
+        tracks = rand_tracks(rng, skip)
+    except Exception as exc:
+        # building valid input messages failed
+        ctx.fail('no exception', f'building-the-tracks:{type(exc).__name__}', case, f'{type(exc).__name__}: {exc}')
+        return False
     via = 'merged_track' if (skip and rng.random() < 0.3) else 'merge_tracks'
     out = judge_merge(ctx, tracks, skip, case, via)
     if out is not None and rng.random() < 0.6:
@@ -316,7 +336,10 @@ def run(ctx):
             ctx.nontrivial(('m', seed))
         n += 1
         if j < 2:
-            tr = rand_tracks(random.Random(seed), False)
+            try:
+                tr = rand_tracks(random.Random(seed), False)
+            except Exception:
+                continue
             ctx.put_sample({'seed': seed, 'tracks': [[str(m)[:50] for m in t[:4]] for t in tr[:3]]})
     for j in range(20 if ctx.tier == 'quick' else 500):
         nested_merge_case(ctx, f'{ctx.seed}:{ctx.shard}:n{j}')
